@@ -210,6 +210,21 @@ add1_to_dtlst(struct dtlst_s *dl, echs_instant_t dt)
 }
 
 static void
+cat_dtlst(struct dtlst_s *dl, struct dtlst_s more)
+{
+/* append MORE to DL and dispose of it, RDATE and EXDATE lines may repeat */
+	if (dl->dt == NULL) {
+		*dl = more;
+		return;
+	}
+	for (size_t i = 0U; i < more.ndt; i++) {
+		add1_to_dtlst(dl, more.dt[i]);
+	}
+	free(more.dt);
+	return;
+}
+
+static void
 free_ical_vevent(struct ical_vevent_s *restrict ve)
 {
 	if (ve->rrul.nr) {
@@ -869,10 +884,10 @@ snarf_fld(struct ical_vevent_s ve[static 1U],
 			}
 			switch (fld) {
 			case FLD_XDATE:
-				ve->xdat = l;
+				cat_dtlst(&ve->xdat, l);
 				break;
 			case FLD_RDATE:
-				ve->rdat = l;
+				cat_dtlst(&ve->rdat, l);
 				break;
 			}
 		}
